@@ -264,7 +264,7 @@ func startWorker(self string, u *Unit) (*workerProc, error) {
 		ovs = append(ovs, o)
 	}
 	cmd := exec.Command(self, "worker", "-dir", dir, "-pkg", u.Pkg, "-overlay", strings.Join(ovs, ","), "-tags", tags)
-	cmd.Env = append(os.Environ(), "GOMEMLIMIT=3GiB", "GOFLAGS=-mod=mod", "GOPROXY=off", "GOSUMDB=off", "GOTOOLCHAIN=local")
+	cmd.Env = append(os.Environ(), "GOMEMLIMIT=3GiB", "GOMAXPROCS=4", "GOFLAGS=-mod=mod", "GOPROXY=off", "GOSUMDB=off", "GOTOOLCHAIN=local")
 	cmd.Stderr = os.Stderr
 	in, _ := cmd.StdinPipe()
 	outp, _ := cmd.StdoutPipe()
